@@ -355,8 +355,11 @@ PyObject* HTMC::cbincount(double rmin, // units of scale*angle in radians
                         if (dis <= maxangle) {
                             double logr = logscale + log10(dis);
 
-                            int radbin = (int) ( (logr-logrmin)/log_binsize );
-                            if (radbin >=0 && radbin < nbin) {
+                            // floor, not a cast: a cast rounds toward zero
+                            // and would put pairs just below rmin in bin 0
+                            double rbin = floor( (logr-logrmin)/log_binsize );
+                            if (rbin >=0 && rbin < nbin) {
+                                int radbin = (int) rbin;
                                 npy_int64 *cptr = (npy_int64 *) PyArray_GETPTR1((PyArrayObject *) counts_array, radbin);
                                 *cptr += 1;
                                 totcount+=1;
